@@ -288,6 +288,17 @@ pub const fn align_offset<T>(current_offset: u32) -> u32 {
   (current_offset + alignment - 1) & !(alignment - 1)
 }
 
+/// Like [`align_offset`], but `None` when the aligned offset does not fit in `u32`
+/// (an offset in the last bytes of a 4 GiB arena).
+#[inline]
+pub(crate) const fn checked_align_offset<T>(current_offset: u32) -> Option<u32> {
+  let alignment = core::mem::align_of::<T>() as u32;
+  match current_offset.checked_add(alignment - 1) {
+    Some(offset) => Some(offset & !(alignment - 1)),
+    None => None,
+  }
+}
+
 #[cfg(feature = "std")]
 macro_rules! write_byte_order {
   ($write_name:ident::$put_name:ident::$converter:ident($ty:ident, $endian:literal)) => {
